@@ -60,6 +60,8 @@ structure Solid0D (α : Type) where
   T : α
   w : α
   solEnd : Option Nat
+  /-- `sigma_new` of the last step -/
+  sg : α
   Ttrace : Array α
   sigma : Array α
 
@@ -141,10 +143,10 @@ def nucleate0D (p : SnowIn α) (Tnuc : α) : α × α :=
   let Tnew := s.T + dt0D * (k.A * p.Kshelf * (Tshelf - s.T)) * (one / X)
   let w := iceFrac0D p Tnew
   let sg := sigma0D p w
-  ⟨Tnew, w, firstHit s.solEnd (decide (lit 9 1 ≤ sg)) i, s.Ttrace.push Tnew, s.sigma.push sg⟩
+  ⟨Tnew, w, firstHit s.solEnd (decide (lit 9 1 ≤ sg)) i, sg, s.Ttrace.push Tnew, s.sigma.push sg⟩
 
 def solid0D (p : SnowIn α) (Teq w : α) (shelfTail : List α) : Solid0D α :=
-  iterIdx (solidStep0D p) shelfTail 0 ⟨Teq, w, none, #[], #[]⟩
+  iterIdx (solidStep0D p) shelfTail 0 ⟨Teq, w, none, zero, #[], #[]⟩
 
 /-- `_run_0D` on the sampled shelf profile `shelf` (in K) -/
 def run0DOn (p : SnowIn α) (shelf : List α) : Result0D α :=
